@@ -306,15 +306,20 @@ def inline_simple_calls(prog, f, expr, depth=2):
 
 
 def check_discarded_composition(chk, f, rule="FF5"):
-    """a loop-carried accumulator (initialised to zero, updated from itself and one local weight, returned through a square root)
-    composes as acc + x - acc*x; helper functions consisting of one return expression are inlined"""
+    """A loop-carried accumulator `acc` (constant initial value c0, updated in the loop from itself and one local weight) is returned
+    through a square root: `return (E(acc)) ** 0.5`.  With K(acc) = 1 - E(acc) (the squared norm kept so far) the reported value is the
+    true relative error of the whole sweep iff
+        K(c0) = 1       and       K(update(acc, x)) = K(acc) * (1 - x)        (x the squared local weight; or (1 - y**2), y the weight)
+    -- weights kept at consecutive cuts multiply.  Both are exact polynomial identities; the spelling (`a + x - a*x`, a running product
+    of kept weights, ...) does not matter.  Helper functions consisting of one return expression are inlined."""
     fn = f.node
     prog = chk.prog
     ACC, X = Rat(Poly.sym("acc")), Rat(Poly.sym("x"))
-    want = ACC + X - ACC * X
+    ONE = Rat(Poly.const(1))
     found = 0
     b = A.local_bindings(fn)
     par = A.enclosing_map(fn)
+    rets = [r for r in A.returns_of(fn) if r.value is not None]
     for n in A.walk_local(fn, include_self=False):
         if not (isinstance(n, ast.Assign) and isinstance(n.targets[0], ast.Name)):
             continue
@@ -330,36 +335,58 @@ def check_discarded_composition(chk, f, rule="FF5"):
             cur = par[cur]
             if isinstance(cur, (ast.For, ast.While)):
                 in_loop = True
-        zero_init = any(k == "assign" and v is not None and A.neg_const(v) == 0 for st, v, k in b.get(acc, []) if st is not n)
-        if len(others) != 1 or not in_loop or not zero_init:
+        inits = [v for st, v, k in b.get(acc, []) if st is not n and k == "assign" and v is not None and isinstance(A.neg_const(v), (int, float))]
+        if len(others) != 1 or not in_loop or not inits:
             continue
         loc = others.pop()
         try:
             got = from_ast(val, {acc: ACC, loc: X}, opaque=False)
         except NotPolynomial:
             continue
+        # E(acc): what the square root is taken of, in a return
+        E = None
+        for r in rets:
+            for x in ast.walk(r.value):
+                arg = None
+                if isinstance(x, ast.BinOp) and isinstance(x.op, ast.Pow) and A.neg_const(x.right) == 0.5:
+                    arg = x.left
+                elif isinstance(x, ast.Call) and (A.call_name(x) or "").split(".")[-1] == "sqrt" and x.args:
+                    arg = x.args[0]
+                if arg is not None and any(isinstance(y, ast.Name) and y.id == acc for y in ast.walk(arg)):
+                    try:
+                        E = (from_ast(arg, {acc: ACC}, opaque=False), arg, r)
+                    except NotPolynomial:
+                        pass
         found += 1
-        chk.verdict(rule, (f, n), n, True if got.equals(want) else False,
-                    f"{f.short}: discarded weights must compose as 1-(1-a)(1-x) = a + x - a*x; found {got}: the reported truncation "
-                    f"error of the sweep is not the true relative error")
-        # x is the square of the local weight; the result is the square root of the accumulator
-        ldef = [v for s_, v, k in b.get(loc, []) if v is not None]
-        sq = any(isinstance(v, ast.BinOp) and isinstance(v.op, ast.Pow) and A.neg_const(v.right) == 2 or
-                 isinstance(v, ast.IfExp) and isinstance(v.body, ast.BinOp) and isinstance(v.body.op, ast.Pow) and A.neg_const(v.body.right) == 2
-                 for v in ldef)
-        chk.verdict(rule, (f, n), f"{loc} is a squared weight", True if sq else False,
-                    f"{f.short}: `{loc}` is not the square of the local discarded weight")
-        rets = [r for r in A.returns_of(fn) if r.value is not None]
+        if E is None:
+            chk.bad(rule, (f, rets[-1] if rets else n), rets[-1].value if rets else n,
+                    f"{f.short}: the accumulated squared weight `{acc}` is not converted back by a square root in the returned value")
+            continue
+        Epoly, Earg, Eret = E
 
-        def is_sqrt_of_acc(e):
-            for x in ast.walk(e):
-                if isinstance(x, ast.BinOp) and isinstance(x.op, ast.Pow) and A.text(x.left) == acc and A.neg_const(x.right) == 0.5:
-                    return True
-                if isinstance(x, ast.Call) and (A.call_name(x) or "").split(".")[-1] == "sqrt" and x.args and A.text(x.args[0]) == acc:
-                    return True
-            return False
-        chk.verdict(rule, (f, rets[-1]), rets[-1].value, True if any(is_sqrt_of_acc(r.value) for r in rets) else False,
-                    f"{f.short}: the accumulated squared weight is not converted back by a square root")
+        def K(of):
+            """1 - E with acc replaced by the Rat `of`"""
+            return ONE - from_ast(Earg, {acc: of}, opaque=False)
+        c0 = Rat(Poly.const(Fraction(A.neg_const(inits[0]))))
+        ok_init = K(c0).equals(ONE)
+        chk.verdict(rule, (f, n), f"{acc} starts at {A.neg_const(inits[0])}: nothing discarded yet", True if ok_init else False,
+                    f"{f.short}: with the initial value {A.neg_const(inits[0])} of `{acc}` the returned weight is not 0 before the first cut")
+        step_sq = K(got).equals(K(ACC) * (ONE - X))            # x is a squared weight
+        step_lin = K(got).equals(K(ACC) * (ONE - X * X))       # x is the weight itself
+        chk.verdict(rule, (f, n), n, True if (step_sq or step_lin) else False,
+                    f"{f.short}: discarded weights must compose so that the kept weights multiply, 1 - D' = (1 - D)(1 - x) (e.g. D' = D + x - D*x); "
+                    f"with `{A.short(n, 60)}` and the returned `{A.short(Eret.value, 40)}` they do not: the reported truncation error of the sweep is "
+                    f"not the true relative error")
+        if step_lin and not step_sq:
+            chk.ok(rule, (f, n), f"{loc} enters squared")
+        else:
+            # x is the square of the local weight
+            ldef = [v for s_, v, k in b.get(loc, []) if v is not None]
+            sq = any(isinstance(v, ast.BinOp) and isinstance(v.op, ast.Pow) and A.neg_const(v.right) == 2 or
+                     isinstance(v, ast.IfExp) and isinstance(v.body, ast.BinOp) and isinstance(v.body.op, ast.Pow) and A.neg_const(v.body.right) == 2
+                     for v in ldef)
+            chk.verdict(rule, (f, n), f"{loc} is a squared weight", True if sq else False,
+                        f"{f.short}: `{loc}` is not the square of the local discarded weight")
     if not found:
         raise AnalysisError(f"{f.short}: accumulator update of discarded weights not found")
 
